@@ -422,8 +422,9 @@ func (f *c07ECDSAFetcher) GetKeyshare() (keyshare.ECDSAKeyshare, error) {
 	ks.Peers, ks.Threshold = append([]peer.ID{}, f.peers...), f.t
 	return ks, nil
 }
-func (f *c07ECDSAFetcher) LockKeyshare()   {}
-func (f *c07ECDSAFetcher) UnlockKeyshare() {}
+func (f *c07ECDSAFetcher) StoreKeyshare(keyshare.ECDSAKeyshare) error { return nil }
+func (f *c07ECDSAFetcher) LockKeyshare()                              {}
+func (f *c07ECDSAFetcher) UnlockKeyshare()                            {}
 
 type c07FrostFetcher struct {
 	peers []peer.ID
@@ -435,8 +436,9 @@ func (f *c07FrostFetcher) GetKeyshare() (keyshare.FrostKeyshare, error) {
 	ks.Peers, ks.Threshold = append([]peer.ID{}, f.peers...), f.t
 	return ks, nil
 }
-func (f *c07FrostFetcher) LockKeyshare()   {}
-func (f *c07FrostFetcher) UnlockKeyshare() {}
+func (f *c07FrostFetcher) StoreKeyshare(keyshare.FrostKeyshare) error { return nil }
+func (f *c07FrostFetcher) LockKeyshare()                              {}
+func (f *c07FrostFetcher) UnlockKeyshare()                            {}
 
 var errC07Panic = errors.New("panic in the code under test")
 
